@@ -5,6 +5,7 @@ import (
 
 	"simrt/runner"
 	_ "vh/h3"
+	_ "vh/h4"
 )
 
 func TestSim(t *testing.T) { runner.Main(t) }
